@@ -40,9 +40,13 @@ def _variant(case, rng):
         p.update(min_occurrences=3, mask_string="[MASK]"); nt = True
     if k == "bpe":
         p["max_vocab_size"] = rng.choice([1, 2, 3]); p["return_type"] = rng.choice(["matrix", "sequences", "tokens"]); nt = True
+    if k == "timedcooc" and rng.random() < 0.6:
+        p["kernel_functions"] = "geometric"; nt = True                      # the kernel that uses the fitted time scale
     if k == "wasserstein":
-        p["metric"] = rng.choice(["euclidean", "cosine", "manhattan"])
+        p["metric"] = rng.choice(["euclidean", "cosine", "manhattan", "callable:cosine", "callable:euclidean"])
         nt = p["metric"] != "cosine"
+        if rng.random() < 0.3:
+            p["method"] = "LOT_sinkhorn"
     if k == "sinkhorn" and rng.random() < 0.5:
         p["metric"] = "euclidean"; nt = True
     if k == "lz":
@@ -70,8 +74,21 @@ def _variant(case, rng):
     return out
 
 
+def _callable_metric_cases():
+    """the documented callable form of the metric (the object the string resolves to): fit and transform must
+    treat it exactly like the string"""
+    import random
+    out = []
+    for i, (name, method) in enumerate([("callable:cosine", "LOT_exact"), ("callable:cosine", "LOT_sinkhorn"), ("callable:euclidean", "LOT_exact")]):
+        c = E.gen_case("wasserstein", random.Random(2200 + i))
+        c["params"].update(metric=name, method=method, memory_size="2G")
+        c["nondefault"] = True
+        out.append(c)
+    return out
+
+
 def corpus():
-    return [
+    return _callable_metric_cases() + [
         {"kind": "bpe", "params": {"max_vocab_size": 1, "return_type": "sequences"}, "X": ["abababab abab", "abab"], "Xt": [], "nondefault": True},
         {"kind": "ngram", "params": {"ngram_size": 2, "min_occurrences": 2, "mask_string": "[M]"},
          "X": [["a", "b", "a", "b", "c"], ["a", "b", "d"]], "Xt": [], "nondefault": True},
@@ -116,6 +133,24 @@ def run_impl(case):
         out["t"] = E.canon(b.transform(E.to_input(kind, X), **kw))
     except Exception as e:
         out["t_exc"] = E.exc_name(e)
+    # a third instance that was fitted (and used) on other data before: a re-fit must behave like a first fit
+    Xalt = _alt_training(case)
+    if Xalt is not None and "t" in out:
+        try:
+            r = E.make(kind, case["params"])
+            r.fit(E.to_input(kind, Xalt), **kw)
+            try:
+                r.transform(E.to_input(kind, Xalt), **kw)
+            except Exception:
+                pass
+        except Exception:
+            r = None                      # the alternative data is not a valid training set for this estimator
+        if r is not None:
+            try:
+                out["refit_ft"] = E.canon(r.fit_transform(E.to_input(kind, X), **kw))
+                out["refit_t"] = E.canon(r.transform(E.to_input(kind, X), **kw))
+            except Exception as e:
+                out["refit_exc"] = E.exc_name(e)
     if kind == "lz" and "t" in out:
         # features for the Lean model of the on-the-fly dictionary: the reference parse of every string,
         # keyed by what the implementation uses as dictionary key (phrase, or its hash)
@@ -138,6 +173,20 @@ def run_impl(case):
         out["lz_rows"] = rows
         out["lz_cols"] = sorted((("s:" + k) if isinstance(k, str) else str(k), int(v)) for k, v in b.column_label_dictionary_.items())
     return out
+
+
+def _alt_training(case):
+    """other training data of the same shape of problem (same vectors / vocabulary universe), different content"""
+    k, X = case["kind"], case["X"]
+    if k == "timedcooc":
+        return [[[tok, t * 40.0 + 3.0] for tok, t in doc] for doc in reversed(X)]      # another time scale
+    if k in ("wasserstein", "sinkhorn", "approxwasserstein", "infoweight", "rowdenoise", "countcompress"):
+        return [list(reversed(r)) for r in X][::-1] if len(X) > 1 else None
+    if k in ("tree", "edgelist", "distribution"):
+        return list(reversed(X))[: max(2, len(X) - 1)]
+    if len(X) < 2:
+        return None
+    return list(reversed(X))[: len(X) - 1] + [X[0]]
 
 
 def model_requests(case, outs):
@@ -198,6 +247,15 @@ def oracle(case, outs):
     df = E.approx_equal(o["ft"], o["t"], **_tol(kind))
     if df:
         fails.append(_F(f"c02.{kind}.fit_transform-ne-transform", f"{df}; params={case['params']} X={case['X']}"))
+    if "refit_exc" in o:
+        fails.append(_F(f"c02.{kind}.refit-raises", f"fit_transform(X) on an instance fitted before on other data: {o['refit_exc']}"))
+    elif "refit_ft" in o:
+        for name, ref in (("refit_ft", "ft"), ("refit_t", "t")):
+            df = E.approx_equal(o[name], o[ref], **_tol(kind))
+            if df:
+                fails.append(_F(f"c02.{kind}.refit-differs", f"{name} of an instance fitted (and used) before on other data differs "
+                                                             f"from a fresh estimator's {ref}: {df}; params={case['params']}"))
+                break
     return fails
 
 
